@@ -38,9 +38,20 @@ def absorb(n, d, e):
     return (n, d, e)
 
 
+def tens_of(n):
+    j = 0
+    while n != 0 and n % 10 == 0:
+        n //= 10
+        j += 1
+    return j
+
+
 def norm(n, d, e):
     if n == 0:
         return (0, 1, 0)
+    r = e % 3
+    if r:
+        n, e = ck(n * 10 ** r), e - r
     g = gcd(abs(n), abs(d))
     s = -1 if d < 0 else 1
     return strip(*absorb(ck(s * n) // g, ck(s * d) // g, e))
@@ -75,7 +86,9 @@ def mul(a, b):
         return (0, 1, 0)
     g1 = gcd(abs(a[0]), b[1])
     g2 = gcd(abs(b[0]), a[1])
-    return norm(ck((a[0] // g1) * (b[0] // g2)), ck((a[1] // g2) * (b[1] // g1)), a[2] + b[2])
+    x, y = a[0] // g1, b[0] // g2
+    jx, jy = tens_of(x), tens_of(y)
+    return norm(ck((x // 10 ** jx) * (y // 10 ** jy)), ck((a[1] // g2) * (b[1] // g1)), a[2] + b[2] + jx + jy)
 
 
 def div(a, b):
@@ -88,7 +101,21 @@ def div(a, b):
     k = b[2] - a[2] - p[2]
     if k <= 0:
         return norm(p[0], p[1], -k)
-    return norm(p[0], ck(p[1] * pow10(k)), 0)
+    return div_pow10(p[0], p[1], k)
+
+
+def div_pow10(n, d, k):
+    while k > 0:
+        if n % 10 == 0:
+            n //= 10
+        elif n % 5 == 0:
+            n, d = n // 5, ck(d * 2)
+        elif n % 2 == 0:
+            n, d = n // 2, ck(d * 5)
+        else:
+            d = ck(d * 10)
+        k -= 1
+    return norm(n, d, 0)
 
 
 def apply(op, a, b):
